@@ -36,7 +36,10 @@ RULE = ("wallets 1 ≤ m ≤ n ≤ 6 (every (m, n) pair at least once) over cosi
         "offsets 0, 1, 2^31-1 and random; all permutations of the key records for n ≤ 4 (sampled for n = 5, 6); every "
         "single-character substitution over DESCRIPTOR_INPUT_CHARSET at every position of a sampled descriptor through "
         "the real parse (sampled positions for larger ones); random texts over the charset for the checksum; "
-        "non-trivial = non-empty input; distinct = distinct request lines / predicate cases")
+        "non-trivial = non-empty input; distinct = distinct request lines / predicate cases; object-reuse histories: one "
+        "P2WSHSortedMulti object asked for addresses at several (branch, index, sort_keys) in varying order and twice each, "
+        "for its text, with its key_records list mutated between calls (account index, order, xpub), every answer "
+        "compared with the stateless model on the current attributes")
 CLAUSES = {
     "checksum = Bitcoin Core's DescriptorChecksum":
         "proved (checksum_eq_core, polymod_eq_core, charsets_eq_core); Spec through the driver on every run",
@@ -120,6 +123,16 @@ def _impl(t):
         return dump(DS.P2WSHSortedMulti.parse(uns(t[1])))
     if op == "parse_addr":
         return xs(DS.P2WSHSortedMulti.parse(uns(t[1])).get_address(offset=int(t[2]), is_change=(t[3] == "1")))
+    if op in ("match_desc", "match_kr"):
+        import re
+        pats = _regexes()
+        mt = re.match(pats[op], uns(t[1]))
+        if mt is None:
+            return REJECT
+        g = mt.groups()
+        if op == "match_desc":
+            return f"{xs(g[0])} {xs(g[1])} {xs(g[2][1:]) if g[2] else '-'}"
+        return f"{xs(g[0])} {xs(g[1])} {xs(g[2])}"
     if op == "p2wsh":
         m, k = int(t[1]), int(t[2])
         keys = [unx(x) for x in t[3:3 + k]]
@@ -127,6 +140,66 @@ def _impl(t):
         from buidl.op import number_to_op_code
         return xs(WitnessScript([number_to_op_code(m)] + keys + [number_to_op_code(k), 174]).address(net))
     raise UnknownOp(op)
+
+
+_REGEX = {}
+
+
+def _regexes():
+    """the two pattern strings, read from the source of descriptor.py (first argument of each re.match call)"""
+    if not _REGEX:
+        import ast, os
+        from harness.common import REPO
+        tree = ast.parse(open(os.path.join(REPO, "buidl/descriptor.py")).read())
+        found = {}
+        for fn in ast.walk(tree):
+            if isinstance(fn, ast.FunctionDef) and fn.name in ("parse_partial_key_record", "parse"):
+                for n in ast.walk(fn):
+                    if isinstance(n, ast.Call) and getattr(n.func, "attr", None) == "match" and n.args and \
+                            isinstance(n.args[0], ast.Constant):
+                        found["match_kr" if fn.name == "parse_partial_key_record" else "match_desc"] = n.args[0].value
+        if len(found) != 2:
+            raise MachineryError("regular expressions of descriptor.py not found")
+        _REGEX.update(found)
+    return _REGEX
+
+
+def impl_history(lines):
+    """evaluate the steps of one history in ONE process on ONE P2WSHSortedMulti object: `h_new` creates it, `h_addr`
+    asks for addresses at many (offset, is_change, sort_keys) in varying order and repeatedly, `h_str` for its text,
+    `h_set` / `h_swap` / `h_xpub` mutate its public `key_records` list between calls.  Each answer is compared with the
+    stateless model evaluated on the current attributes, so state leaking between calls is visible."""
+    import buidl.descriptor as DS
+    D, out = None, []
+    for line in lines:
+        t = line.split(" ")
+        try:
+            op = t[0]
+            if op == "h_new":
+                krs, pos = read_krs(t, 2)
+                D = DS.P2WSHSortedMulti(int(t[1]), krs, sort_key_records=(t[pos] == "1"))
+                out.append(xs(str(D)))
+            elif op == "h_addr":
+                out.append(xs(D.get_address(offset=int(t[1]), is_change=(t[2] == "1"), sort_keys=(t[3] == "1"))))
+            elif op == "h_str":
+                out.append(xs(str(D)))
+            elif op == "h_set":
+                D.key_records[int(t[1])]["account_index"] = int(t[2])
+                out.append("ok")
+            elif op == "h_swap":
+                i, j = int(t[1]), int(t[2])
+                D.key_records[i], D.key_records[j] = D.key_records[j], D.key_records[i]
+                out.append("ok")
+            elif op == "h_xpub":
+                D.key_records[int(t[1])]["xpub_parent"] = uns(t[2])
+                out.append("ok")
+            else:
+                raise UnknownOp(op)
+        except (UnknownOp, MachineryError):
+            raise
+        except Exception:
+            out.append(REJECT)
+    return out
 
 
 def impl_line(line):
@@ -337,7 +410,9 @@ def run(ctx):
         perms = list(itertools.permutations(range(n)))
         if n > 4:
             perms = rng.sample(perms, ctx.n(6, 60))
-        preds.append(("perm", dict(w, perms=[list(p) for p in perms], at=[[rng.choice([0, 3]), rng.random() < 0.5]])))
+        at = [[rng.choice([0, 3]), rng.random() < 0.5]]
+        for j in range(0, len(perms), 2):   # two permutations per task, so that the tasks spread over the workers
+            preds.append(("perm", dict(w, perms=[list(p) for p in perms[j:j + 2]], at=at)))
     # constructor refusals
     w = wallets[3]
     toks = " ".join(kr_tokens(k) for k in w["krs"])
@@ -387,19 +462,19 @@ def run(ctx):
     # sampled positions on the others; a sample also through the model parse
     sub_texts = []
     one = [w for w in wallets if len(w["krs"]) == 1]
-    for w in one[:1] + [w for w in wallets if len(w["krs"]) in (2, 3)][: ctx.n(1, 4)]:
+    for w in one[:1] + [w for w in wallets if len(w["krs"]) in (2, 3)][: ctx.n(0, 4)]:
         sub_texts.append(str(DS.P2WSHSortedMulti(w["m"], [dict(k) for k in w["krs"]])))
     for ti, text in enumerate(sub_texts):
-        positions = list(range(len(text)))
-        if ti > 0 or not ctx.thorough:
+        positions = list(range(len(text)))   # the first (1-of-1) descriptor: every position × the whole charset
+        if ti > 0:
             # quick: every position outside the base58 body of the xpubs, a sample inside them
             inside = set()
             for kr_start in [i for i in range(len(text)) if text[i] == "]"]:
                 end = text.index("/", kr_start)
                 inside.update(range(kr_start + 5, end))
             outside = [p for p in positions if p not in inside]
-            positions = (outside if ti == 0 else rng.sample(outside, min(len(outside), ctx.n(25, 200)))) + \
-                rng.sample(sorted(inside), min(len(inside), ctx.n(25 if ti == 0 else 6, 100)))
+            positions = rng.sample(outside, min(len(outside), ctx.n(25, 200))) + \
+                rng.sample(sorted(inside), min(len(inside), ctx.n(6, 100)))
         for pos in positions:
             preds.append(("substitution", {"text": text, "pos": pos, "chars": CHARSET}))
         for pos in rng.sample(positions, min(len(positions), ctx.n(40, 200))):
@@ -407,6 +482,16 @@ def run(ctx):
                 if ch != text[pos]:
                     lines.append(("parse_substituted", f"parse {xs(text[:pos] + ch + text[pos + 1:])}"))
     rec.count("substitution_texts", len(sub_texts))
+
+    # ---- the two regular expressions alone: Python's re.match on the source patterns against the hand-written matchers
+    frag_d = ["wsh(sortedmulti(", "wsh(sortedmulti(", "))", "))", ")", "(", ",", "#", "#qpzry9x8", "#qpzry9x8g", "1", "22", "a", "\n", " ",
+              "wsh(", "sortedmulti(", "x", "#QPZRY9X8", "#qpzry9xb"]
+    frag_k = ["[", "]", "]", "0123abcd", "0123abc", "ABCDEF12", "*", "/48h", "/1'", "x", "tpub", "_", "\n", "]]", "]-", "9", "]a", "]Z"]
+    for _ in range(ctx.n(1500)):
+        sd = "".join(rng.choice(frag_d) for _ in range(rng.randrange(0, 9)))
+        lines.append(("match_desc", f"match_desc {xs(sd)}"))
+        sk = rng.choice(["[", "[", "[", ""]) + "".join(rng.choice(frag_k) for _ in range(rng.randrange(0, 8)))
+        lines.append(("match_kr", f"match_kr {xs(sk)}"))
 
     # ---- P2WSH script template from explicit keys
     for _ in range(ctx.n(20)):
@@ -417,6 +502,40 @@ def run(ctx):
     lines.append(("p2wsh", f"p2wsh 17 1 {xb(bytes(33))} {xs('mainnet')}"))
     lines.append(("p2wsh", f"p2wsh 1 1 {xb(bytes(33))} {xs('nonet')}"))
 
+    # ---- object-reuse histories: one descriptor object, many (branch, index) queries in varying order and twice each,
+    # its key_records mutated between calls; the model answers each step from the current attributes
+    hists = []   # list of (steps, model lines) with model line None for a mutation step
+    for w in [w for w in wallets if len(w["krs"]) <= 3][: ctx.n(5, 30)]:
+        srt = rng.random() < 0.7
+        D = DS.P2WSHSortedMulti(w["m"], [dict(k) for k in w["krs"]], sort_key_records=srt)
+        cur = [dict(k) for k in D.key_records]
+        n = len(cur)
+        toks = " ".join(kr_tokens(k) for k in w["krs"])
+        repr_line = f"repr {w['m']} {n} {toks} {1 if srt else 0}"
+
+        def q(o, ch, sk=True):
+            return (f"h_addr {o} {1 if ch else 0} {1 if sk else 0}",
+                    f"addr_raw {w['m']} {xs(D.network)} {n} {' '.join(kr_tokens(k) for k in cur)} {o} {1 if ch else 0} {1 if sk else 0}")
+        pts = [(0, False), (0, True), (rng.randrange(1000), False), (2**31 - 1, True), (rng.randrange(2**31), rng.random() < 0.5)]
+        steps = [(f"h_new {w['m']} {n} {toks} {1 if srt else 0}", repr_line)]
+        first = [q(o, ch) for o, ch in pts]
+        again = [q(o, ch) for o, ch in pts]
+        rng.shuffle(again)
+        steps += first + [("h_str", repr_line)] + again + [q(pts[2][0], pts[2][1], sk=False), q(*pts[0])]
+        # mutations of the public key_records list
+        i = rng.randrange(n)
+        cur[i]["account_index"] = cur[i]["account_index"] + 5
+        steps += [(f"h_set {i} {cur[i]['account_index']}", None), q(*pts[0]), q(*pts[1]), ("h_str", repr_line)]
+        if n >= 2:
+            cur[0], cur[1] = cur[1], cur[0]
+            steps += [("h_swap 0 1", None), q(*pts[2]), q(pts[2][0], pts[2][1], sk=False)]
+        other = rng.choice(by_net[D.network])[2][rng.randrange(5)]
+        cur[i]["xpub_parent"] = other
+        steps += [(f"h_xpub {i} {xs(other)}", None), q(*pts[0]), q(*pts[0])]
+        cur[i]["account_index"] = cur[i]["account_index"] - 5
+        steps += [(f"h_set {i} {cur[i]['account_index']}", None), q(*pts[3]), q(*pts[0])]
+        hists.append(steps)
+
     # ---- run both sides
     rng.shuffle(lines)
     rng.shuffle(preds)
@@ -426,6 +545,13 @@ def run(ctx):
     answers = batch_parallel(drv, [model_line(l) for l in reqs], workers=ctx.workers)
     t1 = time.time()
     impls = pmap(impl_line, reqs, workers=ctx.workers, chunksize=2)
+    hist_impl = pmap(impl_history, [[st for st, _ in steps] for steps in hists], workers=ctx.workers, chunksize=1)
+    hflat = [(hi, si, ml) for hi, steps in enumerate(hists) for si, (_, ml) in enumerate(steps) if ml is not None]
+    hmodel = batch_parallel(drv, [ml for _, _, ml in hflat], workers=ctx.workers)
+    for (hi, si, ml), model in zip(hflat, hmodel):
+        case = {"request": ml, "hist": [st for st, _ in hists[hi]], "step": si}
+        rec.compare("history", case, hist_impl[hi][si], model, determined=True, key=f"{hi}:{si}:{ml[:300]}")
+        rec.count("history:" + hists[hi][si][0].split(" ")[0])
     t2 = time.time()
     seen = {}
     for (kind, line), model, impl in zip(lines, answers, impls):
@@ -458,6 +584,8 @@ def run(ctx):
 def replay(ctx, v):
     """re-execute one recorded violation exactly; True if it still violates"""
     case = v["case"]
+    if "hist" in case:
+        return impl_history(case["hist"])[case["step"]] != ctx.driver("drv_c16").one(model_line(case["request"]))
     line = case.get("line") or case.get("request")
     if line is not None:
         return impl_line(line) != ctx.driver("drv_c16").one(model_line(line))
